@@ -131,6 +131,8 @@ def build_world(root, spec):
                     partial_fluxes=None if c.partial_fluxes is None else list(c.partial_fluxes),
                     permeate_temperature=c.permeate_temperature, permeate_pressure=c.permeate_pressure,
                     permeances=None if c.permeances is None else list(c.permeances), comments="molar copy"))
+            if ref.get("alias_first"):
+                curves.append(curves[0])
             W.curve_sets.append(DiffusionCurveSet(name=src.name + "_molar", diffusion_curves=curves))
         else:
             W.curve_sets.append(build.curve_set(W.membranes[ref[0]], ref[1]))
@@ -150,7 +152,12 @@ def build_world(root, spec):
     W.measurements = []
     for ms in spec.get("measurements", []):
         if "points" in ms:
-            W.measurements.append(build.measurements(ms["points"]))
+            mo = build.measurements(ms["points"])
+            if ms.get("alias_dups"):
+                # a measurement logged several times is the SAME Measurement object entered several times
+                first = {}
+                mo = type(mo)(data=[first.setdefault((repr(q.x), repr(q.t), repr(q.p)), q) for q in mo.data])
+            W.measurements.append(mo)
         else:
             cs = W.curve_sets[ms["from_set"]]
             pts = []
@@ -356,6 +363,8 @@ class Executor:
                 return tuple(self.R(x) for x in v["$tuple"])
             if "$array" in v:
                 return numpy.array(v["$array"], dtype=float)
+            if "$npbool" in v:
+                return numpy.bool_(v["$npbool"])
             if "$npfloat" in v:
                 return numpy.float64(v["$npfloat"])
             if "$npint" in v:
@@ -440,6 +449,9 @@ class Executor:
                     _, mag = independent_eval(f, x, t)
                     rows.append([fi, "scaled", x, t, float(half(x, t)), 0.5 * float(f(x, t)), mag])
             d["fits_eval"] = rows
+        if fn == "fit_many" and isinstance(res, dict):
+            d["fit_many"] = {"distinct": res["distinct"], "changed_at": res["changed_at"], "changed": res["changed"],
+                             "first": build.view_fn(res["first"]), "count": res["count"]}
         if isinstance(res, PervaporationFunction):
             grid = op.get("grid")
             if grid:
@@ -520,6 +532,20 @@ class Executor:
             return fit(**a)
         if fn == "find_best_fit":
             return find_best_fit(**a)
+        if fn == "fit_many":
+            # the same fit repeated op["count"] times in this interpreter: every result must be the first one
+            first, distinct, changed_at, changed = None, 0, None, None
+            seen_ = set()
+            for i in range(int(op["count"])):
+                f = fit(**a)
+                key = (f.n, f.m, float(f.alpha).hex(), tuple(float(v).hex() for v in f.a), tuple(float(v).hex() for v in f.b))
+                if first is None:
+                    first = f
+                if key not in seen_:
+                    seen_.add(key)
+                    if len(seen_) == 2:
+                        changed_at, changed = i, build.view_fn(f)
+            return {"first": first, "distinct": len(seen_), "changed_at": changed_at, "changed": changed, "count": int(op["count"])}
         if fn == "fit_vle":
             return fit_vle(**a)
         if fn == "fn_call":
